@@ -48,6 +48,44 @@ Proof. exact paging_ask_count_ceil. Qed.
 Theorem C12_paging_terminates : forall lines H, (3 <= H)%Z -> ~ In POutOfFuel (print_widget lines H).
 Proof. exact paging_terminates_In. Qed.
 
+(* ---- the typed lines -------------------------------------------------------------------- *)
+(* print_widget_in threads the list of typed lines through the same loop; for every height it is
+   print_widget plus the bookkeeping of the typed lines: enough lines -> same events, one line consumed
+   per prompt; too few -> the events up to and including the prompt it blocks at *)
+Theorem C12_paging_in_agrees : forall lines H typed,
+  print_widget_in lines H typed = in_spec (print_widget lines H) typed.
+Proof. exact paging_in_spec. Qed.
+
+(* with at least (n-1)/P typed lines the run finishes, consumes exactly the first (n-1)/P of them
+   (the suffix is left untouched, in order) whatever they contain — empty line or any text — and what
+   is written is print_widget lines H, which does not mention the typed lines *)
+Theorem C12_paging_consumes_one_line_per_prompt : forall lines H typed, (3 <= H)%Z ->
+  let asks := (length lines - 1) / Z.to_nat (H - 2) in
+  asks <= length typed ->
+  print_widget_in lines H typed =
+  {| pr_events := print_widget lines H; pr_left := skipn asks typed; pr_status := PgDone |}.
+Proof. exact paging_consumes_one_line_per_prompt. Qed.
+
+Theorem C12_paging_output_independent_of_typed : forall lines H typed1 typed2, (3 <= H)%Z ->
+  (length lines - 1) / Z.to_nat (H - 2) <= length typed1 ->
+  (length lines - 1) / Z.to_nat (H - 2) <= length typed2 ->
+  pr_events (print_widget_in lines H typed1) = pr_events (print_widget_in lines H typed2).
+Proof. exact paging_output_independent_of_typed. Qed.
+
+(* with k < (n-1)/P typed lines the run blocks: status PgBlocked, every typed line consumed, the output
+   is the prefix of print_widget's events ending with the (k+1)-th prompt, i.e. exactly the first k+1
+   full pages ((k+1)*P content lines), each followed by its prompt *)
+Theorem C12_paging_blocks_without_typed_line : forall lines H typed, (3 <= H)%Z ->
+  let P := Z.to_nat (H - 2) in
+  length typed < (length lines - 1) / P ->
+  let r := print_widget_in lines H typed in
+  pr_status r = PgBlocked /\ pr_left r = [] /\
+  pr_events r = upto_ask (length typed) (print_widget lines H) /\
+  prints_of (pr_events r) = firstn (S (length typed) * P) lines /\
+  count_asks (pr_events r) = S (length typed) /\
+  exists evs, pr_events r = evs ++ [PAskContinue].
+Proof. exact paging_blocks_without_typed_line. Qed.
+
 (* ======================= window content ================================================== *)
 
 (* a window with a (non-empty) title: title lines, one blank line, then each item's own render, in
@@ -168,12 +206,31 @@ Example C12_window_example :
   = ROk (page_events [[[84]; []; [97]]; [[]; []; [98]]; [[99]]]).
 Proof. vm_compute. reflexivity. Qed.
 
+(* 7 lines at height 4 (pages of 2, 2, 2, 1 lines; three prompts): three typed lines of different
+   content ("", "q", "any text") are all consumed; two more would be left; with one only, the run
+   blocks at the second prompt after 4 lines *)
+Example C12_paging_consumes_example :
+  let lines := map (fun i => [N.of_nat i]) (seq 0 7) in
+  let page a n := map (fun i => [N.of_nat i]) (seq a n) in
+  let evs := page_events [page 0 2; page 2 2; page 4 2; page 6 1]%nat in
+  let t1 := [] in let t2 := [113] in let t3 := [97;110;121;32;116;101;120;116] in
+  print_widget_in lines 4 [t1; t2; t3] = {| pr_events := evs; pr_left := []; pr_status := PgDone |} /\
+  print_widget_in lines 4 [t3; t3; t1; t2; t1] = {| pr_events := evs; pr_left := [t2; t1]; pr_status := PgDone |} /\
+  print_widget_in lines 4 [t2]
+  = {| pr_events := map PPrint (page 0 2)%nat ++ PAskContinue :: map PPrint (page 2 2)%nat ++ [PAskContinue];
+       pr_left := []; pr_status := PgBlocked |}.
+Proof. vm_compute. repeat split. Qed.
+
 Print Assumptions C12_paging_prints_all.
 Print Assumptions C12_paging_pages.
 Print Assumptions C12_paging_short_no_prompt.
 Print Assumptions C12_paging_ask_count.
 Print Assumptions C12_paging_ask_count_ceil.
 Print Assumptions C12_paging_terminates.
+Print Assumptions C12_paging_in_agrees.
+Print Assumptions C12_paging_consumes_one_line_per_prompt.
+Print Assumptions C12_paging_output_independent_of_typed.
+Print Assumptions C12_paging_blocks_without_typed_line.
 Print Assumptions C12_window_titled.
 Print Assumptions C12_window_untitled.
 Print Assumptions C12_separator.
